@@ -452,9 +452,6 @@ class ListBox(Widget, WidgetContainerMixin):
             list of (*widget*, *position*, *rows*) tuples below focus in order from top to bottom)
         """
         (maxcol, maxrow) = size
-        if maxrow <= 0:
-            # no rows: nothing is visible; a pending focus change is completed when there is room
-            return None, None, None
 
         # 0. set the focus if a change is pending
         if self.set_focus_pending or self.set_focus_valign_pending:
@@ -1003,6 +1000,9 @@ class ListBox(Widget, WidgetContainerMixin):
     def _set_focus_complete(self, size: tuple[int, int], focus: bool) -> None:
         """Finish setting the position now that we have maxcol & maxrow."""
         (maxcol, maxrow) = size
+        if maxrow <= 0:
+            # no rows to place the focus in: the request stays pending until there is room
+            return None
         self._invalidate()
         if self.set_focus_pending == "first selectable":
             return self._set_focus_first_selectable((maxcol, maxrow), focus)
